@@ -58,6 +58,9 @@ func checkC14(P *Prog, r *Result) {
 	shareRule(P, r, checkC15, "C15/list-key-always-list", nil, "C14/list-presentation-agrees", 1)
 	P.checkNoBoxedReflectValue(r, "C14/typed-map-leaves-unboxed")
 	P.checkEnvLeafFormula(r, "C14/env-leaf-is-trimmed-value")
+	// what a Preprocess function is given is the input leaf itself, whichever front end delivered it (C12's rule on the
+	// callback's argument)
+	shareRule(P, r, checkC12, "C12/callback-arg", func(o Obligation) bool { return strings.Contains(o.Construct, "Preprocess") }, "C14/preprocess-sees-the-leaf-as-delivered", 1)
 	r.floor("C14/getbyfield-agreement", 3)
 	// the key of a field depends only on (field, schema key, the provider's own tag): the canonical return table
 	P.checkTagPriority(r, "C14/key-resolution")
